@@ -16,9 +16,14 @@
 -/
 import DateutilVerif.Proofs.ZonesBuild
 import DateutilVerif.Proofs.ZonesFold
+import DateutilVerif.Proofs.SpecPre
 
 namespace C05
 open TZ Spec
+
+/-- the finite list `Spec.pre r w` (what the oracle enumerates) is exactly the pre-image set -/
+theorem mem_pre_iff (r : Raw) (w t : Int) : t ∈ pre r w ↔ fromutcSpec r t = some w :=
+  Spec.mem_pre_iff r w t
 
 /-- instants the tzfile theorems cover -/
 def Cov (r : Raw) (t : Int) : Prop := (∃ u, lastTime r = some u ∧ t < u) ∨ LastStd (build r)
